@@ -233,6 +233,7 @@ extern int_t   cLUMemInit (fact_t, void *, int_t, int, int, int_t, int,
                             GlobalLU_t *, int **, singlecomplex **);
 extern void    cSetRWork (int, int, singlecomplex *, singlecomplex **, singlecomplex **);
 extern void    cLUWorkFree (int *, singlecomplex *, GlobalLU_t *);
+extern void    cLUMemFree (fact_t, GlobalLU_t *);
 extern int_t   cLUMemXpand (int, int_t, MemType, int_t *, GlobalLU_t *);
 
 extern singlecomplex  *singlecomplexMalloc(size_t);
